@@ -279,7 +279,7 @@ def run_property(pid, tier='quick', update_ledger=False, verbose=False):
             suffix = ''
             if native is not None:
                 try:
-                    out = _guarded(native, NATIVE_S, ob['model'] or {})
+                    out = _guarded(native, NATIVE_S, _norm_model(ob['model']))
                     rec['replay'] = out
                     if out.get('holds'):
                         # the counter-model does not fail natively
@@ -425,6 +425,21 @@ def run_lemma(lem):
                     ms=0, model=None, detail='lemma construction failed: ' + traceback.format_exc()[-400:], havoced=False)
 
 
+def _norm_model(m):
+    """counter-model as a flat dict; a cvc5 model arrives as SMT-LIB text: its nullary define-funs are merged in"""
+    import re
+    m = dict(m or {})
+    txt = m.get('__cvc5_model__')
+    if isinstance(txt, str):
+        for name, sort, val in re.findall(r'\(define-fun\s+(\S+)\s+\(\)\s+(\S+)\s+(.*?)\)\s*(?=\(define-fun|\)\s*$)', txt, re.S):
+            val = val.strip()
+            if sort == 'String' and len(val) >= 2 and val[0] == '"' and val[-1] == '"':
+                val = val[1:-1].replace('""', '"')
+                val = re.sub(r'\\u\{([0-9a-fA-F]+)\}', lambda mo: chr(int(mo.group(1), 16)), val)
+            m.setdefault(name, val)
+    return m
+
+
 def _safe(s):
     return ''.join(ch if ch.isalnum() or ch in '._-' else '_' for ch in s)[-120:]
 
@@ -451,7 +466,7 @@ def replay_file(path):
     if native is None:
         print('no native replay for %s; solver model: %s' % (rec['obligation'], rec.get('model')))
         return 1
-    out = native(rec.get('model') or {})
+    out = native(_norm_model(rec.get('model')))
     print(json.dumps(_jsonable(out), indent=1, default=str))
     return 0 if out.get('holds') else 1
 
